@@ -327,6 +327,34 @@ func c05Programs(r *findings.Run) (progs []*Prog, names []string) {
 			}
 		}
 	}
+	// programs that use ONE run-time facility and report through panic only (no print anywhere): whatever a
+	// facility needs in the script (helper routines, set-up lines) must not depend on another statement's presence
+	{
+		pn := func(e Expr) Stmt { return Panic{X: e} }
+		one := func(name string, st ...Stmt) { add("sole-facility "+name, &Prog{Stmts: st}) }
+		sl := Define{Names: []string{"sl"}, Form: DefShort, Vals: []Expr{SliceLit{Elem: TInt, Elems: []Expr{lit(4), lit(5), lit(6)}}}}
+		str := Define{Names: []string{"str"}, Form: DefShort, Vals: []Expr{StrLit{V: "abcdef"}}}
+		x := Define{Names: []string{"x"}, Form: DefShort, Vals: []Expr{lit(3)}}
+		one("panic-literal", pn(StrLit{V: "boom"}))
+		one("panic-in-if", x, If{Cond: Binary{Op: ">", L: Var{"x"}, R: lit(2)}, Then: []Stmt{pn(StrLit{V: "big"})}})
+		one("panic-in-function", FuncDef{Name: "f", Body: []Stmt{pn(StrLit{V: "inner"})}}, ExprStmt{X: Call{Fn: "f"}})
+		one("panic-after-loop", x, For{Init: Define{Names: []string{"i"}, Form: DefShort, Vals: []Expr{lit(0)}}, Cond: Binary{Op: "<", L: Var{"i"}, R: lit(3)}, Post: IncDec{Name: "i", Inc: true}, Body: []Stmt{OpAssign{Name: "x", Op: "+", Val: Var{"i"}}}}, pn(Itoa{X: Var{"x"}}))
+		one("panic-itoa", x, pn(Itoa{X: Binary{Op: "*", L: Var{"x"}, R: lit(7)}}))
+		one("panic-concat", x, pn(Binary{Op: "+", L: StrLit{V: "v="}, R: Itoa{X: Var{"x"}}}))
+		one("slice-len", sl, pn(Itoa{X: Len{X: Var{"sl"}}}))
+		one("slice-index", sl, pn(Itoa{X: Index{X: Var{"sl"}, I: lit(1)}}))
+		one("slice-assign", sl, SliceSet{Name: "sl", I: lit(1), Val: lit(9)}, pn(Itoa{X: Index{X: Var{"sl"}, I: lit(1)}}))
+		one("slice-grow", sl, SliceSet{Name: "sl", I: lit(5), Val: lit(9)}, pn(Itoa{X: Index{X: Var{"sl"}, I: lit(4)}}))
+		one("slice-copy", sl, Define{Names: []string{"d"}, Form: DefShort, Vals: []Expr{SliceLit{Elem: TInt}}}, Define{Names: []string{"n"}, Form: DefShort, Vals: []Expr{CopyE{Dst: "d", Src: Var{"sl"}}}}, pn(Itoa{X: Var{"n"}}))
+		one("slice-copy-then-index", sl, Define{Names: []string{"d"}, Form: DefShort, Vals: []Expr{SliceLit{Elem: TInt}}}, Define{Names: []string{"n"}, Form: DefShort, Vals: []Expr{CopyE{Dst: "d", Src: Var{"sl"}}}}, pn(Itoa{X: Binary{Op: "+", L: Var{"n"}, R: Index{X: Var{"d"}, I: lit(2)}}}))
+		one("slice-range", sl, x, ForRange{I: "i", V: "v", X: Var{"sl"}, Body: []Stmt{OpAssign{Name: "x", Op: "+", Val: Binary{Op: "*", L: Var{"i"}, R: Var{"v"}}}}}, pn(Itoa{X: Var{"x"}}))
+		one("string-len", str, pn(Itoa{X: Len{X: Var{"str"}}}))
+		one("string-index", str, pn(Index{X: Var{"str"}, I: lit(2)}))
+		one("string-sub", str, pn(Substr{X: Var{"str"}, Lo: lit(1), Hi: lit(4)}))
+		one("string-range", str, Define{Names: []string{"acc"}, Form: DefShort, Vals: []Expr{StrLit{V: ""}}}, ForRange{I: "i", V: "c", X: Var{"str"}, Body: []Stmt{Assign{Names: []string{"acc"}, Vals: []Expr{Binary{Op: "+", L: Var{"c"}, R: Var{"acc"}}}}}}, pn(Var{"acc"}))
+		one("function-result", FuncDef{Name: "f", Params: []Param{{"a", TInt}}, Rets: []Type{TInt}, Body: []Stmt{Return{Vals: []Expr{Binary{Op: "+", L: Var{"a"}, R: lit(1)}}}}}, pn(Itoa{X: Call{Fn: "f", Args: []Expr{lit(4)}}}))
+		one("multi-assign", x, Define{Names: []string{"y"}, Form: DefShort, Vals: []Expr{lit(8)}}, Assign{Names: []string{"x", "y"}, Vals: []Expr{Var{"y"}, Var{"x"}}}, pn(Itoa{X: Binary{Op: "-", L: Var{"x"}, R: Var{"y"}}}))
+	}
 	// panic inside a function followed by more top-level code
 	add("panic in function then top-level code", &Prog{Stmts: []Stmt{
 		FuncDef{Name: "boom", Body: []Stmt{Print{Args: []Expr{StrLit{V: "in"}}}, Panic{X: StrLit{V: "stop"}}}},
@@ -422,7 +450,8 @@ func C05() int {
 		for i, p := range progs {
 			if g.pred(names[i], p) {
 				guarded++
-				if sentinel == nil || len(PrintProg(*p)) < len(PrintProg(*sentinel)) {
+				// the witness is the program written for it (code after the call shows that the caller went on)
+				if names[i] == "panic in function then top-level code" {
 					sentinel = p
 				}
 				continue
@@ -441,6 +470,7 @@ func C05() int {
 	outcomes := findings.NewDistinct()
 	var mu sync.Mutex
 	done, undef, agreed, capped := 0, 0, 0, false
+	stray := 0
 	unmodelled := map[string]int{}
 	groups := map[string]int{}
 	drive.Par(len(progs), func(i int) {
@@ -455,6 +485,7 @@ func C05() int {
 		mu.Lock()
 		done++
 		groups[strings.Fields(names[i])[0]]++
+		stray += bv.Got.StrayParens
 		switch bv.Symptom {
 		case "":
 			agreed++
@@ -492,6 +523,7 @@ func C05() int {
 	sort.Strings(gr)
 	r.Set("program_groups", gr)
 	r.Set("unmodelled_reasons", un)
+	r.Set("executed_stray_closing_parenthesis_lines", stray)
 	r.Set("unmodelled", done-agreed-undef-r.Violations())
 	r.Set("agreed_with_reference", agreed)
 	r.Set("skipped_undefined", undef)
